@@ -461,3 +461,16 @@ func (r *Raft) VerifFollowerTimeoutDecision() int {
 	}
 	return 3
 }
+
+// VerifSetElectionTimeout replaces ElectionTimeout in the live configuration (bypassing
+// ValidateConfig, which ties it to HeartbeatTimeout) and notifies the main loop: a candidate
+// then re-arms its election timer with the new value. Used to make a candidate's election
+// timer fire in runs whose other timers are one hour long.
+func (r *Raft) VerifSetElectionTimeout(d time.Duration) {
+	r.confReloadMu.Lock()
+	cfg := r.config()
+	cfg.ElectionTimeout = d
+	r.conf.Store(cfg)
+	r.confReloadMu.Unlock()
+	asyncNotifyCh(r.followerNotifyCh)
+}
